@@ -6,7 +6,19 @@
 -/
 import Proofs.PairStateList
 import Proofs.PairStateHist
+import Proofs.HandlerConsts
 namespace Hap.PairState
+
+/-- The pairings-protocol TLV constants found in pyhap/hap_handler.py and pyhap/const.py *now*
+    (regenerated on every run) are the HAP specification's. -/
+theorem C06_protocol_constants :
+    Hap.Gen.Handler.tag_REQUEST_TYPE = [0] ∧ Hap.Gen.Handler.tag_USERNAME = [1] ∧
+    Hap.Gen.Handler.tag_PUBLIC_KEY = [3] ∧ Hap.Gen.Handler.tag_SEQUENCE_NUM = [6] ∧
+    Hap.Gen.Handler.tag_ERROR_CODE = [7] ∧ Hap.Gen.Handler.tag_PERMISSIONS = [11] ∧
+    Hap.Gen.Handler.tag_SEPARATOR = [255] ∧ Hap.Gen.Handler.st_M2 = [2] ∧
+    Hap.Gen.Handler.err_AUTHENTICATION = [2] ∧
+    Hap.Gen.Handler.perm_USER = [0] ∧ Hap.Gen.Handler.perm_ADMIN = [1] := by decide
+
 
 /-- a verified session of a controller that is admin in `s` right now -/
 def Conn.adminNow (s : PState) (c : Conn) : Prop :=
